@@ -9,6 +9,7 @@ def numItersOf (kind : String) : NumIters :=
   | "absent" | "raise" => .callError
   | "0" => .value 0 | "1" => .value 1 | "3" => .value 3
   | "2.5" => .value 2                 -- uint(2.5)
+  | "0.5" | "0.999" => .value 0       -- uint(0.5) = 0: not a positive number of iterations
   | _ => .value 0                     -- '3' (a string), nil, true, a table: not an LNumber
 
 def assertTrueOf (kind : String) : Bool := kind == "true" || kind == "truemsg"
